@@ -29,6 +29,14 @@ Theorem C02_every_send_justified le t o sc t' x :
                                  decrypt b d = Some (r_tx e)).
 Proof. exact (every_send_justified_all le t o sc t' x). Qed.
 
+(* the hypothesis reorged_tracked cannot be dropped from the four-way form: refuted for a state
+   that merely satisfies Inv (`reorged` names a uuid without tracker) *)
+Theorem C02_every_send_justified_refuted :
+  exists le t o sc t' x e,
+    Inv t /\ step le t o sc = (t', x) /\ not_abort x /\ In e (rpc_log t') /\ r_kind e = K_send /\
+    ~ just_send4 t o (r_tx e).
+Proof. exact every_send_justified_refuted. Qed.
+
 (* ... the same for ALL states satisfying Inv (no assumption on `reorged`), for sends and mempool
    queries alike; just_send has a fifth, unreachable, case: the dispute — confirmed in the block
    being connected — of an appointment responded to in this very step whose uuid was already in
@@ -118,6 +126,7 @@ Proof.
 Qed.
 
 Print Assumptions C02_every_send_justified.
+Print Assumptions C02_every_send_justified_refuted.
 Print Assumptions C02_every_rpc_justified.
 Print Assumptions C02_quiet_operations.
 Print Assumptions C02_reorged_tracked_reachable.
